@@ -97,7 +97,7 @@ def draw_c(rng, cplx, i):
 def cases(c):
     rng = c.rng('cases')
     out = []
-    nf = 70 if c.tier == 'quick' else 3600
+    nf = 70 if c.tier == 'quick' else 14400
     i = 0
     for fn in FUNCS:
         for j in range(nf):
@@ -144,7 +144,7 @@ def cases(c):
             d1 = dict(d0, kind='dyn', exc_only=True)
             extra.append(d1)
     out += extra
-    ncl = 60 if c.tier == 'quick' else 3000
+    ncl = 60 if c.tier == 'quick' else 12000
     for cls in E.CLASSES:
         for j in range(ncl):
             cplx = int(rng.integers(0, 2))
